@@ -508,6 +508,10 @@ func (s *startupCoordinator) authenticateHandshake(ctx context.Context, authFram
 			}
 			return nil
 		case *authChallengeFrame:
+			if challenger == nil {
+				// e.g. PasswordAuthenticator answers in one step and hands out no challenger
+				return fmt.Errorf("gocql: received an authentication challenge the authenticator is not prepared to answer")
+			}
 			resp, challenger, err = challenger.Challenge(v.data)
 			if err != nil {
 				return err
